@@ -228,6 +228,10 @@ def run(ctx):
     from ..mirlib import atoms_of_operand as _atoms
     witness("DenseHashSet::insert|grows-to-index", len(rz) == 1 and "arg2" in _atoms(f, rz[0]["args"][1]),
             "DenseHashSet::insert grows the bit set by an amount that does not depend on the inserted id: the word for a high match id (>= 64 with 65+ selectors) may still be missing after the resize, and the `debug_assert!(false)` fallback fires (debug) or the match is silently dropped (release)", f.loc())
+    heaps = [(g, g.deep(st["rv"]["ops"][0])) for g in mir.fns if not mir.is_test_fn(g) for b in g.blocks for st in b["stmts"]
+             if st["k"] == "assign" and st["rv"]["k"] == "agg" and (st["rv"].get("name") or "").endswith("Buffer::Heap")]
+    witness("TextEncoder|heap-buffer-has-length", len(heaps) >= 2 and all(d.startswith("vec::from_elem(") for _, d in heaps),
+            f"the encoder's heap scratch buffer is built from {[d[:60] for _, d in heaps]} instead of `vec![0; N]`: a buffer with capacity but zero length makes encode_from_utf8 report OutputFull without progress, and TextEncoder::encode retries for ever (a hang on long non-ASCII insertions in legacy encodings)", heaps[0][0].loc() if heaps else None)
     # ActionError::Internal is turned into an Err, not a panic
     p = mir.fn("Parser::parse")
     aggs = [st["rv"]["name"] for b in p.blocks for st in b["stmts"] if st["k"] == "assign" and st["rv"]["k"] == "agg"]
